@@ -436,6 +436,7 @@ def run(ctx: Ctx) -> None:
     ctx.call(root_scope_table, "8")
     ctx.call(routing, "9")
     ctx.call(chain_siblings, "10")
+    ctx.call(fresh_checksums, "11")
 
 
 MUTANTS = [
@@ -516,3 +517,27 @@ def chain_siblings(ctx: Ctx, rule: str) -> None:
     whiles = [x for x in ast.walk(f.node) if isinstance(x, ast.While)]
     ok4 = len(dels) == 2 and not whiles and "get_dependency" not in ast.unparse(f.node)
     ctx.record(rule + "u", "COUNT", f.ref, "transport.unset deletes the state's own files only (its backing chain is preserved)", ok4, {}, "" if ok4 else "removing a pool state also touches its backing chain (or not all of its own files)")
+
+
+def fresh_checksums(ctx: Ctx, rule: str) -> None:
+    """Cache validity is decided on checksums computed from the files at comparison time (no memoisation)."""
+    for name in ("compare_local", "compare_remote"):
+        f = ctx.repo.func(f"{POOL}:TransferOps.{name}")
+        ctx.touch(f.ref)
+        defs = {}
+        for s_ in ast.walk(f.node):
+            if isinstance(s_, ast.Assign) and len(s_.targets) == 1:
+                defs.setdefault(ast.unparse(s_.targets[0]), []).append(ast.unparse(s_.value))
+        ok = sorted(defs.get("local_hash", [])) == sorted(["crypto.hash_file(cache_path, 1048576, 'md5')", "''"])
+        if name == "compare_local":
+            ok = ok and sorted(defs.get("remote_hash", [])) == sorted(["crypto.hash_file(pool_path, 1048576, 'md5')", "''"])
+        else:
+            ok = ok and defs.get("remote_hash") == ["ops.hash_file(session, path, '1M', 'md5')"]
+        rets = [r for r in ast.walk(f.node) if isinstance(r, ast.Return)]
+        ok = ok and len(rets) == 1 and ast.unparse(rets[0].value) == "local_hash == remote_hash"
+        ctx.record(rule, "PROV", f.ref, f"{name}: both checksums are computed from the files when asked (missing file = ''), result = equality", ok, defs,
+                   "" if ok else f"{name} no longer compares freshly computed checksums (a cached or otherwise derived checksum can be stale)")
+    c = ctx.repo.cls(f"{POOL}:TransferOps")
+    state = [ast.unparse(s_.targets[0]) for s_ in c.node.body if isinstance(s_, ast.Assign)]
+    ctx.record(rule + "s", "OWNER", f"{POOL}:TransferOps", "TransferOps keeps no state besides the session cache", state == ["_session_cache"], {"class_attributes": state},
+               "" if state == ["_session_cache"] else f"TransferOps has additional class-level state {state}: results of file operations may be remembered across changes of the files")
